@@ -4,6 +4,8 @@
 //   ascii_drv --mode mut     --seed S --n N --mutants M             --out FILE --tmp DIR
 //   ascii_drv --mode pending --seed S --n N                         --out FILE --tmp DIR
 //   ascii_drv --mode read    --in FILE --kind poly|tet|hex --chk 0|1 --bu 0|1 --out FILE --tmp DIR
+//   ascii_drv --mode readall --in FILE                              (all 12 reader configurations)
+//   (--first I: cases I .. I+N-1, so that a run can be split over several processes)
 //   (--nofork 1: reads run in-process, for looking at a sanitizer report by hand)
 //   ascii_drv --mode types                                 (prints the ASCII typeName list it covers)
 //
@@ -515,7 +517,7 @@ struct Gen {
         if ((s == 5 || s == 6) && m.n_faces() > 0) {
             int nc = rng.range(1, 3);
             for (int k = 0; k < nc; ++k) {
-                int val = rng.range(valence0 ? 0 : 1, 7);
+                int val = rng.range(0, 7);                           // a cell without halffaces is storable
                 std::vector<HalfFaceHandle> hfs;
                 for (int j = 0; j < val; ++j) hfs.emplace_back((int)rng.below(2 * m.n_faces()));
                 m.add_cell(hfs, false);                              // arbitrary halfface lists
@@ -606,10 +608,11 @@ struct Gen {
         }
     }
     template <class M> void attach_props(M& m, int case_idx) {
-        int np = case_idx % 5 == 4 ? 0 : rng.range(1, 9);
+        // four per mesh walk through all (type, entity) pairs (196 pairs: complete after 49 meshes), the rest are random
+        int np = 4 + rng.range(0, 4);
         for (int k = 0; k < np; ++k) {
-            int combo = (case_idx * 9 + k) % (N_TYPES * 7);
-            if (rng.chance(1, 5)) combo = (int)rng.below((uint64_t)(N_TYPES * 7));
+            int combo = (case_idx * 4 + k) % (N_TYPES * 7);
+            if (k >= 4) combo = (int)rng.below((uint64_t)(N_TYPES * 7));
             int ty = combo % N_TYPES, ent = (combo / N_TYPES + combo) % 7;
             long base = rng.range(-500, 500);
             std::string name = prop_name(k);
@@ -725,7 +728,7 @@ struct Mutator {
 };
 
 // ---------------------------------------------------------------------------------------------
-struct Args { std::string mode = "rt", out, in, kind = "poly"; uint64_t seed = 1; int n = 10, mutants = 20; bool chk = true, bu = true, valence0 = false; };
+struct Args { std::string mode = "rt", out, in, kind = "poly"; uint64_t seed = 1; int n = 10, mutants = 20, first = 0; bool chk = true, bu = true, valence0 = false; };
 
 template <class M> static void emit_source(const M& m, const std::string& text) {
     fprintf(OUT, "SRC\n");
@@ -758,7 +761,7 @@ static std::string gen_case(const Args& a, int i, std::string& kind, bool with_p
 }
 
 static void mode_rt(const Args& a) {
-    for (int i = 0; i < a.n; ++i) {
+    for (int i = a.first; i < a.first + a.n; ++i) {
         std::string kind;
         std::string text = gen_case(a, i, kind);
         detect(text);
@@ -770,10 +773,10 @@ static void mode_rt(const Args& a) {
 }
 
 static void mode_mut(const Args& a) {
-    vh::Rng rng(vh::mix(a.seed, 77));
-    Mutator mu(rng);
     static const char* kinds[] = {"poly", "tet", "hex"};
-    for (int i = 0; i < a.n; ++i) {
+    for (int i = a.first; i < a.first + a.n; ++i) {
+        vh::Rng rng(vh::mix(a.seed, 77000 + (uint64_t)i));      // per case: a run can be split into ranges
+        Mutator mu(rng);
         std::string kind;
         std::string text = gen_case(a, i, kind);
         for (int j = 0; j < a.mutants; ++j) {
@@ -814,7 +817,7 @@ template <class M> static void pending_case(const Args& a, int i, M& m, Gen& g, 
     fprintf(OUT, "ENDCASE\n");
 }
 static void mode_pending(const Args& a) {
-    for (int i = 0; i < a.n; ++i) {
+    for (int i = a.first; i < a.first + a.n; ++i) {
         Gen g(vh::mix(a.seed, (uint64_t)i + 5000), false);
         int k = i % 3;
         if (k == 0) { PolyMesh m; std::string s = g.build_poly(m, 3 + i / 3 % 5); pending_case(a, i, m, g, "poly", s); }
@@ -833,12 +836,23 @@ static void mode_read(const Args& a) {
     fprintf(OUT, "ENDCASE\n");
 }
 
+// one text under all 12 reader configurations (corpus replay, shrinking)
+static void mode_readall(const Args& a) {
+    std::ifstream f(a.in.c_str(), std::ios::binary);
+    std::stringstream ss; ss << f.rdbuf();
+    std::string text = ss.str();
+    fprintf(OUT, "CASE 0 kind=file shape=file\n");
+    fprintf(OUT, "MUT 0 file %s\n", hex(text).c_str());
+    for (const char* k : {"poly", "tet", "hex"}) for (int c = 0; c < 2; ++c) for (int b = 0; b < 2; ++b) do_read(text, k, c, b);
+    fprintf(OUT, "ENDCASE\n");
+}
+
 int main(int argc, char** argv) {
     Args a;
     for (int i = 1; i + 1 < argc || (i < argc && std::string(argv[i]) == "--help"); i += 2) {
         std::string k = argv[i], v = i + 1 < argc ? argv[i + 1] : "";
         if (k == "--mode") a.mode = v; else if (k == "--seed") a.seed = strtoull(v.c_str(), nullptr, 10);
-        else if (k == "--n") a.n = atoi(v.c_str()); else if (k == "--mutants") a.mutants = atoi(v.c_str());
+        else if (k == "--n") a.n = atoi(v.c_str()); else if (k == "--first") a.first = atoi(v.c_str()); else if (k == "--mutants") a.mutants = atoi(v.c_str());
         else if (k == "--out") a.out = v; else if (k == "--tmp") TMPDIR = v; else if (k == "--in") a.in = v;
         else if (k == "--kind") a.kind = v; else if (k == "--chk") a.chk = v == "1"; else if (k == "--bu") a.bu = v == "1";
         else if (k == "--timeout") TIMEOUT_MS = atoi(v.c_str()); else if (k == "--nofork") NOFORK = v == "1"; else if (k == "--valence0") a.valence0 = v == "1";
@@ -852,6 +866,7 @@ int main(int argc, char** argv) {
     else if (a.mode == "mut") mode_mut(a);
     else if (a.mode == "pending") mode_pending(a);
     else if (a.mode == "read") mode_read(a);
+    else if (a.mode == "readall") mode_readall(a);
     else { fprintf(stderr, "unknown mode\n"); return 2; }
     fprintf(OUT, "END\n");
     if (OUT != stdout) fclose(OUT);
